@@ -171,7 +171,15 @@ void harness(void) {
         r1 = scpiParser_detectProgramMessageUnit(&s1, p1, n1);
     }
     r2 = scpiParser_detectProgramMessageUnit(&s2, b2, n2);
-    if (s1.termination != SCPI_MESSAGE_TERMINATION_NONE || r1 < n1) {
+    /* A decision is acted on only as part of a chain of units that reaches a line terminator inside the available data
+     * (SCPI_Input executes nothing before it has seen one and rescans from the start of its buffer when more data arrive).
+     * So: a unit ended by a line terminator is claimed always; a unit ended by ';' or cut short at an offending character
+     * is claimed when a line terminator follows it in the available data.  Without that side condition the lemma would
+     * also speak about tokens that merely touch the end of the data ("* #b" is an offending '#', "* #b1" a number) -
+     * decisions nobody acts on. */
+    int nl_after = 0;
+    for (i = 0; i < N; i++) if (i >= r1 && i < n1 && (b2[i] == '\n' || b2[i] == '\r')) nl_after = 1;
+    if (s1.termination == SCPI_MESSAGE_TERMINATION_NL || ((s1.termination == SCPI_MESSAGE_TERMINATION_SEMICOLON || r1 < n1) && nl_after)) {
         int crlf_split = s1.termination == SCPI_MESSAGE_TERMINATION_NL && r1 == n1 && b2[n1 - 1] == '\r' && b2[n1] == '\n';
         if (crlf_split) {
             VASSERT(r2 == r1 + 1 && s2.termination == SCPI_MESSAGE_TERMINATION_NL, "C08 a CR LF pair cut between CR and LF still terminates the same unit");
@@ -182,7 +190,7 @@ void harness(void) {
         VASSERT(s2.programHeader.type == s1.programHeader.type && s2.programHeader.len == s1.programHeader.len, "C08 ... nor does the header classification");
         VASSERT(s2.numberOfParameters == s1.numberOfParameters, "C08 ... nor does the parameter count");
 #if N >= 5
-        if (s1.termination == SCPI_MESSAGE_TERMINATION_SEMICOLON && s1.numberOfParameters >= 1) VWITNESS("terminated-unit-with-data");
+        if (s1.numberOfParameters >= 1) VWITNESS("terminated-unit-with-data");
 #else
         if (s1.termination != SCPI_MESSAGE_TERMINATION_NONE) VWITNESS("terminated-unit");
 #endif
